@@ -841,7 +841,11 @@ func (ts tasks) numToDo() (todo, notes int) {
 func (s *Server) CancelRequest(id string) {
 	s.mu.Lock()
 	defer s.mu.Unlock()
-	if s.cancelLocked(id) {
+
+	// Cancel the context but keep the ID reserved: the request remains in
+	// flight until its reply has been delivered, which releases the ID.
+	if cancel, ok := s.used[id]; ok {
+		cancel()
 		s.log("Cancelled request %s by client order", id)
 	}
 }
